@@ -107,3 +107,38 @@ func HashString(s string) uint64 {
 	h.Write([]byte(s))
 	return h.Sum64()
 }
+
+// Thresholds returns the sizes <= max at which implementations typically change
+// behaviour: 2^k-1, 2^k, 2^k+1; 3*2^k-1, 3*2^k, 3*2^k+1; 10^k-1, 10^k, 10^k+1; 5*10^k,
+// plus 0..3. Workloads sweep every collection size over this list because
+// randomly drawn small inputs never reach a "more than 256 items" branch.
+func Thresholds(max int) []int {
+	set := map[int]bool{0: true, 1: true, 2: true, 3: true}
+	add := func(v int) {
+		for _, d := range []int{-1, 0, 1} {
+			if v+d >= 0 && v+d <= max {
+				set[v+d] = true
+			}
+		}
+	}
+	for p := 2; p <= max+1 && p > 0; p *= 2 {
+		add(p)
+		add(3 * p / 2 * 1)
+	}
+	for p := 10; p <= max+1 && p > 0; p *= 10 {
+		add(p)
+		if 5*p <= max {
+			set[5*p] = true
+		}
+	}
+	var out []int
+	for v := range set {
+		out = append(out, v)
+	}
+	for i := 1; i < len(out); i++ {
+		for j := i; j > 0 && out[j] < out[j-1]; j-- {
+			out[j], out[j-1] = out[j-1], out[j]
+		}
+	}
+	return out
+}
